@@ -43,8 +43,8 @@ def run(col, modname, target, runs, seed, max_len=4096, timeout=3000):
         for fl in r["failures"]:
             col.failures.append(fl)
             col.ignore_keys.add(fl["key"])
-        cov = re.findall(r"cov: (\d+)", log)
-        col.notes.append("atheris %s: %d executions, %d evaluated by the oracle, final coverage counter %s, libFuzzer seed %d (campaigns are only approximately reproducible; "
+        cov = re.findall(r"stat::new_units_added:\s*(\d+)", log)
+        col.notes.append("atheris %s: %d executions, %d evaluated by the oracle, new corpus units found through coverage feedback: %s, libFuzzer seed %d (campaigns are only approximately reproducible; "
                          "a recorded failure carries its input and replays exactly)" % (target, r.get("execs", 0), r["evaluations"], cov[-1] if cov else "n/a", seed))
         col.count("fuzz/%s/executions" % target, r.get("execs", 0))
         return True
